@@ -119,11 +119,17 @@ class Program(object):
 
         address = 0
         for index, statement in enumerate(self.statements):
-            address = statement.set_address(address)
+            try:
+                address = statement.set_address(address)
+            except ValueTypeError as error:
+                raise TranslationError(str(error), statement)
             address += statement.code_pkg.size
 
         for index, statement in enumerate(self.statements):
-            statement.fix_addresses(self.statements, index)
+            try:
+                statement.fix_addresses(self.statements, index)
+            except (ValueTypeError, ZeroDivisionError) as error:
+                raise TranslationError(str(error), statement)
 
         # Update the symbol table with the proper addresses
         for symbol, value in self.symbol_table.items():
